@@ -406,8 +406,8 @@ def run(chk):
                                "harness/props/c01.py exporter + c01_gen.py generator", "fparser2, gfortran"]
     chk.lean()
     thorough = chk.tier == "thorough"
-    nprog = 1500 if thorough else 90
-    nrun = 1500 if thorough else 90        # every program goes through gfortran
+    nprog = 1500 if thorough else 70
+    nrun = 1500 if thorough else 70        # every program goes through gfortran
     rng = chk.rng
 
     # corpus first: hand-written programs and minimised past failures
